@@ -536,6 +536,16 @@ func registerIntrinsics(m *Machine) {
 	N["time.runtimeNano"] = func(m *Machine, fr *Frame, a []Value) Value { return Const(64, 0) }
 	N["(*time.Location).get"] = func(m *Machine, fr *Frame, a []Value) Value { return a[0] }
 
+	// ---- context: timeouts never fire (deadlines are not part of any property) ----
+	withCancel := func(m *Machine, fr *Frame, a []Value) Value {
+		fn := m.Prog.ImportedPackage("context").Func("WithCancel")
+		return m.call(fr, fn, []Value{a[0]}, 0)
+	}
+	N["context.WithTimeout"] = withCancel
+	N["context.WithDeadline"] = withCancel
+	N["context.WithTimeoutCause"] = withCancel
+	N["context.WithDeadlineCause"] = withCancel
+
 	// ---- crypto/internal/constanttime (compiler intrinsics) ----
 	N["crypto/internal/constanttime.boolToUint8"] = func(m *Machine, fr *Frame, a []Value) Value {
 		return BoolToBV(a[0].(*Term), 8)
